@@ -464,6 +464,14 @@ class CallMixin(object):
             v = args[0]
             if v.hint is not None and v.hint.kind == 'int' and not v.hint.opt:
                 return v
+            if v.hint is not None and v.hint.kind == 'float' and not v.hint.opt:
+                # truncation towards zero of a scaled value
+                from .model import FLOAT_SCALE
+                f = Val.i(v.t)
+                q = fresh('trunc', IntS)
+                self.assume(st, z3.If(f >= 0, And(q * FLOAT_SCALE <= f, f < (q + 1) * FLOAT_SCALE),
+                                      And((q - 1) * FLOAT_SCALE < f, f <= q * FLOAT_SCALE)))
+                return V(mkI(q), parse_spec('int'))
             s = Val.s(v.t)
             iv, canonical = self.str_to_int(s)
             self.raise_exit(st, TypeError, Not(Or(Val.is_S(v.t), Val.is_I(v.t))), line)
